@@ -222,3 +222,113 @@ func C18InjectCases(p *spec.Program, seed uint64, tier string, n int, stride int
 	}
 	return cases
 }
+
+// C18RandomRealCases places one unmappable field of every kind into a seeded message of a random
+// program (time_type / duration_type removed from its configuration).
+func C18RandomRealCases(base *spec.Program, seed uint64, tier string) []*Case {
+	r := NewRand(seed)
+	var cases []*Case
+	b := cloneProgram(base)
+	// without the temporal types every existing temporal field would be unmappable: strip them
+	for mi := range b.Messages {
+		var keep []spec.Field
+		for _, f := range b.Messages[mi].Fields {
+			if !f.IsTemporal() {
+				keep = append(keep, f)
+			}
+		}
+		if len(keep) == 0 {
+			keep = append(keep, spec.Field{Name: "KeptAlive", Num: 1, Kind: spec.KString})
+		}
+		// oneof groups must keep >= 1 member; drop declarations that lost all members
+		b.Messages[mi].Fields = keep
+		var oneofs []string
+		for _, o := range b.Messages[mi].Oneofs {
+			for _, f := range keep {
+				if f.Oneof == o {
+					oneofs = append(oneofs, o)
+					break
+				}
+			}
+		}
+		b.Messages[mi].Oneofs = oneofs
+	}
+	b.Config.TimeType, b.Config.DurationType = nil, nil
+	// exclusions / flags naming removed fields are harmless (unknown keys are ignored)
+	refRun := func() *RunSpec {
+		rs := runFrom(b.Config.Render(nil, nil))
+		rs.Program = b
+		rs.Note = "fault-free twin: same program without the unmappable field"
+		return &rs
+	}
+	var reachable []string
+	seen := map[string]bool{}
+	for _, root := range b.Config.Types {
+		for _, m := range b.Reachable(root) {
+			if !seen[m] && len(b.Msg(m).Fields) > 0 {
+				seen[m] = true
+				reachable = append(reachable, m)
+			}
+		}
+	}
+	sort.Strings(reachable)
+	for _, k := range badKinds {
+		if k.name == "map-int-key-message-value" {
+			continue // refers to a message of the hand-made base program
+		}
+		msg := reachable[r.Intn(len(reachable))]
+		pos := badPos{name: "random:" + msg, msg: msg, first: r.Bool()}
+		p, fname := withBad(b, pos, k)
+		aff := affectedRootsExcl(p, msg)
+		cases = append(cases, &Case{Property: "C18", Clause: "unmappable/" + k.name + "@" + pos.name, Seed: seed, Tier: tier, Program: p,
+			Ref: refRun(), Run: runFrom(p.Config.Render(nil, nil)), Expect: Expect{Kind: "atomic", Roots: p.Config.Types, Affected: aff}})
+		pe := cloneProgram(p)
+		pe.Config.ExcludeFields = append(pe.Config.ExcludeFields, msg+"."+fname)
+		cases = append(cases, &Case{Property: "C18", Clause: "excluded/type-key/" + k.name + "@" + pos.name, Seed: seed, Tier: tier, Program: pe,
+			Ref: refRun(), Run: runFrom(pe.Config.Render(nil, nil)), Expect: Expect{Kind: "atomic", Roots: p.Config.Types}})
+	}
+	return cases
+}
+
+// affectedRootsExcl: roots from which msg is reachable through non-excluded fields.
+func affectedRootsExcl(p *spec.Program, msg string) []string {
+	excl := map[string]bool{}
+	for _, e := range p.Config.ExcludeFields {
+		excl[e] = true
+	}
+	var out []string
+	for _, root := range p.Config.Types {
+		seen := map[string]bool{}
+		var walk func(m, path string) bool
+		walk = func(m, path string) bool {
+			if m == msg {
+				return true
+			}
+			if seen[m+"@"+path] {
+				return false
+			}
+			seen[m+"@"+path] = true
+			for _, f := range p.Msg(m).Fields {
+				if f.Kind != spec.KMessage {
+					continue
+				}
+				fp := path + "." + f.Name
+				if f.Embed {
+					fp = m
+				}
+				if excl[m+"."+f.Name] || excl[fp] {
+					continue
+				}
+				if walk(f.Ref, fp) {
+					return true
+				}
+			}
+			return false
+		}
+		if walk(root, root) {
+			out = append(out, root)
+		}
+	}
+	sort.Strings(out)
+	return out
+}
